@@ -192,6 +192,27 @@ static void work_e(long lo, long hi, struct res *r, void *arg) {
     if (r->nsample < 1 && lo < hi) res_sample(r, "NUL-terminated strings of 2^31-1 .. 2^32+2^31+3 bytes (read-only mappings): decode, decode_explicit, crypt");
 }
 
+/* (f) 16 tokens each of which several word lists accept at once (abbreviations shared by 2, 3, ... 6 languages): the automatic decoder
+ * meets every possible number of matching languages */
+static char SHT[64][8]; static int SHN[64], NSH;
+static void build_shared(void) {
+    int have[11] = {0};
+    for (int li = 0; li < R_NLANG && NSH < 60; li++) { if (!RL[li].prefix) continue;
+        for (int i = 0; i < R_NW && NSH < 60; i++) { if (strlen(RL[li].wkey[i]) < 4) continue; char p[8]; memcpy(p, RL[li].wkey[i], 4); p[4] = 0;
+            int cnt = 0; for (int l2 = 0; l2 < R_NLANG; l2++) if (ref_recognise(l2, p) >= 0) cnt++;
+            if (cnt < 2 || have[cnt] >= 8) continue; int dup = 0; for (int q = 0; q < NSH; q++) if (!strcmp(SHT[q], p)) dup = 1; if (dup) continue;
+            strcpy(SHT[NSH], p); SHN[NSH] = cnt; NSH++; have[cnt]++; } }
+}
+static void work_f(long lo, long hi, struct res *r, void *arg) {
+    (void)arg;
+    for (long x = lo; x < hi; x++) {
+        char s[PSTR + 8]; size_t len = 0; int step = (int)(x / NSH), first = (int)(x % NSH);
+        for (int i = 0; i < 16; i++) { if (i) s[len++] = ' '; const char *t = SHT[(first + i * step) % NSH]; memcpy(s + len, t, strlen(t)); len += strlen(t); }
+        feed(s, len, r, (uint64_t)x + (4ull << 40), 0);
+    }
+    if (r->nsample < 1 && lo < hi) res_sample(r, "16 x \"%s\" (accepted by %d word lists)", SHT[lo % NSH], SHN[lo % NSH]);
+}
+
 int main(int argc, char **argv) {
     int a = common_args(argc, argv);
     ref_init(VERIF_ROOT); sec_mark_initial(); env_init(); inject(0); polyseed_enable_features(7);
@@ -206,6 +227,7 @@ int main(int argc, char **argv) {
         feed(s, (size_t)n, r, strtoull(argv[a + 1], NULL, 10), 1);
         for (int i = 0; i < r->nviol; i++) printf("REPRODUCED %s: %s\n", r->v[i].key, r->v[i].msg); return r->nviol ? 1 : 0;
     }
+    build_shared();
     LMAX = G_thorough ? 7 : 5; LB = G_thorough ? 5 : 4;
     if (a + 1 < argc && !strcmp(argv[a], "--lmax")) { LMAX = atoi(argv[a + 1]); LB = LMAX - 1; }
     long na = 0, c = 1; for (int l = 0; l <= LMAX; l++) { na += c; c *= 9; }
@@ -215,6 +237,7 @@ int main(int argc, char **argv) {
     memset(r, 0, sizeof *r); par_run(nb * 3 * R_NLANG, work_b, NULL, r); out_part("b: valid 14-, 15- and 16-token phrases of every language + every tail", r, CLS, "");
     memset(r, 0, sizeof *r); par_run(7L * 4680, work_c, NULL, r); out_part("c: boundary-length families", r, CLS, "");
     memset(r, 0, sizeof *r); par_run(1920, work_d, NULL, r); out_part("d: well-formed phrases with each of the 32 feature values, every language, three enabled masks", r, CLS, "");
+    memset(r, 0, sizeof *r); par_run((long)NSH * 4, work_f, NULL, r); out_part("f: 16 abbreviations that 2 to 6 word lists accept at once", r, CLS, "every number of simultaneously matching languages");
     memset(r, 0, sizeof *r); par_run(14, work_e, NULL, r); out_part("e: strings of 2^31 and 2^32 bytes and their neighbours", r, CLS, "lengths that do not fit an int / unsigned");
     out_kv_int("alphabet", 9); out_kv_int("max_len_a", LMAX); out_kv_int("max_tail_b", LB);
     out_end();
